@@ -37,7 +37,7 @@ echo "base=$BASE with=$WITH existing=$EXIST"
 RES=""
 for C in $CHECKS; do
   git -C /repo apply $SRC/patch.diff || { echo "patch does not apply to /repo"; continue; }
-  OUT=$(/verif/bin/govc check $C 2>&1); RC=$?
+  OUT=$(GOVC_EVIDENCE_DIR=/verif/work/seed-evidence /verif/bin/govc check $C 2>&1); RC=$?
   git -C /repo checkout -- .
   echo "== check $C exit=$RC"; echo "$OUT" | grep -E "^(VIOLATION|ENGINE-ERROR|C[0-9]+:)" | cut -c1-300 | head -6
   RES="$RES $C:$RC"
